@@ -73,6 +73,14 @@ namespace bloch::runtime {
         return v.type == Value::Type::Object && !v.objectValue;
     }
 
+    // Stores 'v' in an object field or static slot. The value it replaces is dropped only once
+    // the slot holds the new one: releasing the last reference to an object runs its destructor,
+    // which may read the same slot again.
+    static void storeInSlot(Value& slot, const Value& v) {
+        Value previous = std::move(slot);
+        slot = v;
+    }
+
     static std::string valueToString(const Value& v) {
         // Pretty-print a runtime value for echo and tracked summaries.
         std::ostringstream oss;
@@ -672,7 +680,7 @@ namespace bloch::runtime {
                         !existing.className.empty()) {
                         newVal.className = existing.className;
                     }
-                    thisObj->fields[field->offset] = newVal;
+                    storeInSlot(thisObj->fields[field->offset], newVal);
                     return;
                 }
             }
@@ -684,7 +692,7 @@ namespace bloch::runtime {
                     newVal.objectValue && !existing.className.empty()) {
                     newVal.className = existing.className;
                 }
-                owner->staticStorage[field->offset] = newVal;
+                storeInSlot(owner->staticStorage[field->offset], newVal);
                 return;
             }
         }
@@ -3103,19 +3111,19 @@ namespace bloch::runtime {
                         : nullptr;
                 if (instField) {
                     if (instField->offset < obj.objectValue->fields.size())
-                        obj.objectValue->fields[instField->offset] = rhs;
+                        storeInSlot(obj.objectValue->fields[instField->offset], rhs);
                 } else {
                     auto [staticField, owner] =
                         obj.objectValue->cls
                             ? findStaticFieldWithOwner(obj.objectValue->cls, memAssign->member)
                             : std::pair<RuntimeField*, RuntimeClass*>{nullptr, nullptr};
                     if (staticField && owner && staticField->offset < owner->staticStorage.size())
-                        owner->staticStorage[staticField->offset] = rhs;
+                        storeInSlot(owner->staticStorage[staticField->offset], rhs);
                 }
             } else if (obj.type == Value::Type::ClassRef && obj.classRef) {
                 auto [field, owner] = findStaticFieldWithOwner(obj.classRef, memAssign->member);
                 if (field && owner && field->offset < owner->staticStorage.size())
-                    owner->staticStorage[field->offset] = rhs;
+                    storeInSlot(owner->staticStorage[field->offset], rhs);
             }
             return rhs;
         } else if (auto aassign = dynamic_cast<ArrayAssignmentExpression*>(e)) {
